@@ -154,6 +154,8 @@ type nodeWorld struct {
 	ops    []string
 	spec   *nodeSpec
 	msgSeq int
+	hooks  *hookObs
+	race   *raceArm
 
 	zeroAccept bool // the case contained a subscribe that registered nothing although it passed all checks
 }
@@ -182,7 +184,8 @@ func newNodeWorld(r *corr.Run, accts []*acct) *nodeWorld {
 	if err := w.app.Start(context.Background()); err != nil {
 		r.Fatal("app start: " + err.Error())
 	}
-	w.pool = real.VerifPool(w.svc)
+	w.pool = real.VerifPool(w.svc) // the real pool: exports and barriers talk to it directly
+	w.installSchedulePoints()       // the service itself now goes through the schedule-point wrapper
 	w.spec = newNodeSpec()
 	w.emit(fmt.Sprintf("nnew %d %d %d", capPerSpace, capPerStream, rateBurst), "ok")
 	return w
@@ -589,14 +592,8 @@ func (w *nodeWorld) setNodePeer(peerId string, v bool) {
 	w.emit(fmt.Sprintf("nnodepeer %s %s", peerId, b01(v)), "ok")
 }
 
-func (w *nodeWorld) subscribe(s *nstream, space string, pats []string) {
-	realPats := make([]string, len(pats))
-	for i, p := range pats {
-		realPats[i] = w.nm.real(p)
-	}
-	w.push(s, &pubsubproto.PubSubMessage{Content: &pubsubproto.PubSubMessage_Subscribe{
-		Subscribe: &pubsubproto.Subscribe{SpaceId: space, Topics: realPats}}}, "subscribe")
-
+// specSubscribe applies a subscribe frame to the specification state (and counts its branch).
+func (w *nodeWorld) specSubscribe(s *nstream, space string, pats []string) {
 	// specification
 	ss := w.spec.streams[s.sid]
 	okAll := true
@@ -646,16 +643,21 @@ func (w *nodeWorld) subscribe(s *nstream, space string, pats []string) {
 		}
 	}
 	w.r.Count("node.sub." + branch)
-	w.finishOp(fmt.Sprintf("nsub %d %s %s %s %s", s.sid, s.peer, s.ident, tok(space), toks(pats)))
 }
 
-func (w *nodeWorld) unsubscribe(s *nstream, space string, pats []string) {
+func (w *nodeWorld) subscribe(s *nstream, space string, pats []string) {
 	realPats := make([]string, len(pats))
 	for i, p := range pats {
 		realPats[i] = w.nm.real(p)
 	}
-	w.push(s, &pubsubproto.PubSubMessage{Content: &pubsubproto.PubSubMessage_Unsubscribe{
-		Unsubscribe: &pubsubproto.Unsubscribe{SpaceId: space, Topics: realPats}}}, "unsubscribe")
+	w.push(s, &pubsubproto.PubSubMessage{Content: &pubsubproto.PubSubMessage_Subscribe{
+		Subscribe: &pubsubproto.Subscribe{SpaceId: space, Topics: realPats}}}, "subscribe")
+
+	w.specSubscribe(s, space, pats)
+	w.finishOp(fmt.Sprintf("nsub %d %s %s %s %s", s.sid, s.peer, s.ident, tok(space), toks(pats)))
+}
+
+func (w *nodeWorld) specUnsubscribe(s *nstream, space string, pats []string) {
 	if ss := w.spec.streams[s.sid]; ss != nil {
 		if len(pats) == 0 {
 			delete(ss.reg, space)
@@ -674,6 +676,16 @@ func (w *nodeWorld) unsubscribe(s *nstream, space string, pats []string) {
 			w.r.Count("node.unsub.listed.hit_" + b01(hit))
 		}
 	}
+}
+
+func (w *nodeWorld) unsubscribe(s *nstream, space string, pats []string) {
+	realPats := make([]string, len(pats))
+	for i, p := range pats {
+		realPats[i] = w.nm.real(p)
+	}
+	w.push(s, &pubsubproto.PubSubMessage{Content: &pubsubproto.PubSubMessage_Unsubscribe{
+		Unsubscribe: &pubsubproto.Unsubscribe{SpaceId: space, Topics: realPats}}}, "unsubscribe")
+	w.specUnsubscribe(s, space, pats)
 	w.finishOp(fmt.Sprintf("nunsub %d %s %s", s.sid, tok(space), toks(pats)))
 }
 
@@ -818,26 +830,8 @@ func (w *nodeWorld) closeStream(s *nstream) {
 // kill makes the write side fail: the pool removes the stream and runs the close hook while the
 // reader is still alive, so a later frame is handled AFTER the stream is gone (close-before-subscribe).
 func (w *nodeWorld) kill(s *nstream) {
-	s.fs.cancel() // writeLoop: WaitOne(ctx) fails -> streamClose
-	select {
-	case <-s.fs.closed:
-	case <-time.After(hangTimeout):
-		w.r.Fatal("hang: stream not closed after its context was cancelled")
-	}
-	deadline := time.Now().Add(hangTimeout)
-	for {
-		_, inPool := w.poolIds()[s.sid]
-		_, inSvc := real.VerifServingSnapshot(w.svc).Streams[s.sid]
-		if !inPool && !inSvc {
-			break
-		}
-		if time.Now().After(deadline) {
-			// the close hook did not clean the per-stream record: report through the oracle below
-			break
-		}
-		time.Sleep(50 * time.Microsecond)
-	}
-	time.Sleep(200 * time.Microsecond) // let a hook that had nothing to do return
+	w.removeFromPool(s) // writeLoop: WaitOne(ctx) fails -> streamClose -> pool removal -> close hook
+	w.waitHook(s.sid, "kill")
 	s.inPool = false
 	delete(w.spec.streams, s.sid)
 	w.finishOp(fmt.Sprintf("nkill %d", s.sid))
